@@ -70,19 +70,15 @@ class Stats:
 
 
 def _timed_check(solver, budget_ms):
-    """solver.check() with a hard wall-clock limit: z3's own `timeout` is not honoured by every tactic (nlsat can run
-    far beyond it), so a timer thread interrupts the context after 1.5x the budget; an interrupted check is `unknown`"""
-    import threading
+    """solver.check() under z3's own time-out (set on the solver by the caller).
 
-    timer = threading.Timer(1.5 * budget_ms / 1000.0 + 1.0, solver.ctx.interrupt)
-    timer.daemon = True
-    timer.start()
+    An earlier version interrupted the context from a timer thread to enforce a hard wall-clock limit; under load the
+    late interrupts raced with other z3 calls of the main thread and crashed libz3 (segfaults, lost pool tasks), so the
+    limit is z3's soft time-out again, with the per-path watchdog as the backstop."""
     try:
         return str(solver.check())
     except z3.Z3Exception:
         return "unknown"
-    finally:
-        timer.cancel()
 
 
 def _is_zero(t):
